@@ -846,24 +846,30 @@ impl quote::ToTokens for ImplWhereClause<'_, '_> {
 
         // Nothing says that `Impl<T>` has the supertraits (`trait Foo: Display`, `trait B: A` with `A`
         // delegated some other way than `B`): the impl is for those that do.
-        // (When `T` implements the trait itself, supertraits that mention `Self` come with that.)
+        // (When `T` implements the trait itself, a supertrait that mentions `Self` comes with that.)
         let delegates_to_self = matches!(
             &self.attr.delegation_kind,
             None | Some(SpanOpt(Delegate::BySelf, _))
         );
         if let Supertraits::Some { bounds, .. } = &self.out_trait.supertraits {
             let self_ident = syn::Ident::new("Self", self.span);
-            let mentions_self = crate::analyze_generics::mentions_ident(
-                bounds.to_token_stream(),
-                &self_ident,
-            );
-            if !bounds.is_empty() && !(delegates_to_self && mentions_self) {
+            let restated: syn::punctuated::Punctuated<&syn::TypeParamBound, syn::token::Plus> = bounds
+                .iter()
+                .filter(|bound| {
+                    !(delegates_to_self
+                        && crate::analyze_generics::mentions_ident(
+                            bound.to_token_stream(),
+                            &self_ident,
+                        ))
+                })
+                .collect();
+            if !restated.is_empty() {
                 punctuator.push_fn(|stream| {
                     push_tokens!(
                         stream,
                         syn::token::SelfType(self.span),
                         syn::token::Colon(self.span),
-                        bounds
+                        restated
                     );
                 });
             }
